@@ -449,6 +449,19 @@ func (e *SpecEnv) call(n SCall) *Val {
 		return valOfSort(Select(scalar(e.eval(n.Args[0])), scalar(e.eval(n.Args[1]))))
 	case "store":
 		return valOfSort(Store(scalar(e.eval(n.Args[0])), scalar(e.eval(n.Args[1])), scalar(e.eval(n.Args[2]))))
+	case "fresh":
+		// the reference was allocated during the call / function (did not exist in the pre-state)
+		if e.old == nil {
+			sfail("fresh() needs a pre-state")
+		}
+		r := toInt(e.eval(n.Args[0]))
+		return boolVal(And(Ge(r, e.old.NextRef), Lt(r, e.st.NextRef)))
+	case "freshSlice":
+		v := e.eval(n.Args[0])
+		if v.K != VSlice || e.old == nil {
+			sfail("freshSlice(slice)")
+		}
+		return boolVal(And(Ge(v.T, e.old.NextRef), Lt(v.T, e.st.NextRef), Eq(v.Off, Num(0))))
 	case "allocated":
 		// the reference existed before the call (is not a fresh allocation)
 		return boolVal(Lt(toInt(e.eval(n.Args[0])), e.st.NextRef))
